@@ -52,6 +52,7 @@ ALL_FEATURES = (
 # "big_incbin" (a >64 KiB contiguous block) is opt-in: callers add it explicitly with a low probability.
 # "avoid_first_bank" is opt-in too: the program leaves the first 64 KiB of the image alone.
 
+SPECIAL_LABEL_NAMES = ["_start", "loop_1", "Main", "nmi", "reset", "irq_handler", "EOF", "PATCH", "a1", "x2", "s_", "db_table", "text1", "A_VERY_LONG_LABEL_NAME_THAT_GOES_ON_AND_ON_0123456789", "l", "O0", "macro_1", "if_1", "scope1", "End"]
 NAKED = "nop inx iny dex dey clc sec sei pha pla phx plx phy ply php plp tax tay txa tya xba xce inc dec asl lsr ror rol phb plb phd pld phk tcd tcs tdc tsc tsx txs txy tyx".split()
 IMM_BW = "lda ldx ldy cmp adc sbc and cpx cpy bit".split()  # .b and .w immediates
 DIRECT_BWL = "lda sta adc and cmp sbc".split()  # direct b / w / l
@@ -709,6 +710,10 @@ class Gen:
         if kind == "label":
             if depth == 0 and not in_lm:
                 name = f"L{self.uid()}"
+                special = [n for n in SPECIAL_LABEL_NAMES if self.prefix + n not in self.globals]
+                if special and rng.random() < 0.12:
+                    name = self.prefix + rng.choice(special)  # names a user would really pick
+                    self.uid()
                 self.globals.append(name)
                 self.prog.global_labels.append(name)
             else:
@@ -854,9 +859,13 @@ class Gen:
             node["macro"] = name
             return [node]
         if kind == "incbin":
-            rel = f"{self.prefix}bin{self.uid()}.bin"
+            # file names as users have them: not every one is an identifier once '/' and '.' become '_'
+            rel = f"{self.prefix}{rng.choice(['bin', 'bin', 'title-screen', '1up', 'gfx.v2', 'data+pal', 'font(8x8)'])}{self.uid()}.bin"
             self.prog.files[rel] = bytes(rng.randrange(256) for _ in range(rng.choice([1, 2, 7, 16, 40, 64])))
             self.prog.roles[rel] = "incbin"
+            if self.ref(rel) == rel:
+                # the directive defines a label named after the path: it belongs in the symbol file too
+                self.note_label(rel.replace("/", "_").replace(".", "_"))
             return [stmt(f".incbin '{self.ref(rel)}'", "incbin")]
         if kind == "ips":
             # a small well-formed third-party patch whose targets lie in a zone the program never writes
